@@ -9,10 +9,12 @@
 (*   "sorted"  MeshTri1 default (sort_t = True: every cell sorted ascending)   *)
 (*   "asgiven" every other class, and MeshTri1 with sort_t = False             *)
 (* Which = "main"  : the pairs inside the claim - every design clause holds.   *)
-(* Which = "quadp" : named deviation QuadPFacetModesUnoriented (DESIGN 7 #11): *)
-(*                   several DOFs per facet on quadrilaterals under cyclic     *)
-(*                   shifts - DirConsistent is violated; reported through the  *)
-(*                   known-finding mechanism.                                  *)
+(* Which = "quadp" : named deviations on quadrilaterals under cyclic shifts:   *)
+(*                   QuadPFacetModesUnoriented (DESIGN 7 #11: several DOFs per *)
+(*                   facet, DirConsistent violated) and QuadN1TangentUnoriented*)
+(*                   (reference tangents of ElementQuadN1 are not uniformly    *)
+(*                   oriented w.r.t. the local facet direction, SignsEqual     *)
+(*                   violated); reported through the known-finding mechanism.  *)
 (* The exclusion of the statement (triangles with sort_t = False and several   *)
 (* DOFs per facet) is witnessed by an ASSUME: the design fails there.          *)
 EXTENDS Conformity, MC_Universe
@@ -37,7 +39,7 @@ Reorder(cell, o) == [j \in DOMAIN cell |-> cell[o[j]]]
 SafeNumberings(nv) ==
   IF nv <= 4 \/ (nv <= 6 /\ Tier = "thorough")
   THEN {[v \in 1..nv |-> pi[v]] : pi \in Permutations(1..nv)}
-  ELSE IF Tier = "quick" /\ nv > 9 THEN {ReversePerm(nv)}
+  ELSE IF Tier = "quick" /\ nv >= 9 THEN {ReversePerm(nv)}
   ELSE {[v \in 1..nv |-> v], ReversePerm(nv), RotateBy(nv, 2)}
 
 Base ==
@@ -57,8 +59,10 @@ Patterns(name, m) ==
   IF name = "quad4" THEN QuadShiftPatterns
   ELSE IF Tier = "quick" /\ m.kind = "hex"
        THEN {pat \in [DOMAIN m.t -> LocalOrders(m.kind)] : pat[1] = HexRot[1] \/ pat[2] = HexRot[7]}
+  ELSE IF Tier = "quick" /\ m.kind = "tri"
+       THEN {pat \in [DOMAIN m.t -> LocalOrders(m.kind)] : pat[1] = <<1, 2, 3>> \/ pat[2] = <<3, 1, 2>>}
   ELSE IF Tier = "quick" /\ m.kind = "tet"
-       THEN {pat \in [DOMAIN m.t -> LocalOrders(m.kind)] : pat[1][1] = 1 \/ pat[2][4] = 4}
+       THEN {pat \in [DOMAIN m.t -> LocalOrders(m.kind)] : pat[1] = <<1, 2, 3, 4>> \/ pat[2] = <<4, 2, 3, 1>>}
   ELSE [DOMAIN m.t -> LocalOrders(m.kind)]
 
 Variant(m, pi, pat) ==
@@ -69,7 +73,7 @@ Unshifted(m, pi) == LET r == Renumber(m, pi) IN [kind |-> m.kind, nv |-> m.nv, p
 \* ---- family layouts ----
 Lay(name, nodal, edge, facet, interior, dirs, directed, sign) ==
   [name |-> name, nodal |-> nodal, edge |-> edge, facet |-> facet, interior |-> interior, dirs |-> dirs,
-   directed |-> directed, sign |-> sign]
+   directed |-> directed, sign |-> sign, tdirs |-> dirs]
 TriDirs  == CodeLF("tri")
 QuadDirs == << <<1, 2>>, <<2, 3>>, <<4, 3>>, <<1, 4>> >>           \* element_quadp.py: facet modes run along x resp. y
 TriLayoutsAll ==
@@ -79,9 +83,12 @@ TriLayoutsAll ==
    Lay("TriN2", 0, 0, 2, 2, TriDirs, TRUE, "hcurl"), Lay("TriMorley", 1, 0, 1, 0, TriDirs, TRUE, "none"),
    Lay("TriArgyris", 6, 0, 1, 0, TriDirs, TRUE, "none")}
 TriLayoutsUndirected == {L \in TriLayoutsAll : ~L.directed}
-QuadLayouts == {Lay("Quad2", 1, 0, 1, 1, QuadDirs, FALSE, "none"), Lay("QuadRT1", 0, 0, 1, 0, QuadDirs, FALSE, "hdiv"),
-                Lay("QuadN1", 0, 0, 1, 0, QuadDirs, FALSE, "hcurl")}
+QuadLayouts == {Lay("Quad2", 1, 0, 1, 1, QuadDirs, FALSE, "none"), Lay("QuadRT1", 0, 0, 1, 0, QuadDirs, FALSE, "hdiv")}
 QuadPLayout == Lay("QuadP3", 1, 0, 2, 4, QuadDirs, TRUE, "none")
+\* element_quad_n1.py lbasis: the reference tangents run 1->0, 1->2, 3->2, 0->3 (0-based), i.e. against the local
+\* facet direction on slots 0 and 2 and along it on slots 1 and 3
+QuadN1Layout == [Lay("QuadN1", 0, 0, 1, 0, QuadDirs, FALSE, "hcurl") EXCEPT !.tdirs = << <<2, 1>>, <<2, 3>>, <<4, 3>>, <<1, 4>> >>]
+QuadOrientedLayouts == {QuadPLayout, QuadN1Layout}
 TetLayouts  == {Lay("TetP2", 1, 1, 0, 0, <<>>, FALSE, "none"), Lay("TetCCR", 1, 1, 1, 1, <<>>, FALSE, "none"),
                 Lay("TetRT1", 0, 0, 1, 0, <<>>, FALSE, "hdiv"), Lay("TetN1", 0, 1, 0, 0, <<>>, FALSE, "hcurl")}
 HexLayouts  == {Lay("Hex2", 1, 1, 1, 1, <<>>, FALSE, "none"), Lay("HexRT1", 0, 0, 1, 0, <<>>, FALSE, "hdiv")}
@@ -92,13 +99,13 @@ AllVariants(name) == LET m == Base[name] IN {Variant(m, pi, pat) : pi \in SafeNu
 
 MainScenarios ==
   {Sc(v, "sorted", TriLayoutsAll) : v \in AllVariants("tri2") \cup AllVariants("tri2b")}
-  \cup {Sc(v, "asgiven", TriLayoutsUndirected) : v \in AllVariants("tri2") \cup AllVariants("tri2b")}
+  \cup {Sc(v, "asgiven", TriLayoutsUndirected) : v \in AllVariants("tri2") \cup (IF Tier = "quick" THEN {} ELSE AllVariants("tri2b"))}
   \cup {Sc(v, "asgiven", QuadLayouts) : v \in AllVariants("quad2") \cup AllVariants("quad2v") \cup AllVariants("quad4")}
-  \cup UNION {{Sc(Unshifted(Base[n], pi), "asgiven", {QuadPLayout}) : pi \in SafeNumberings(Base[n].nv)} : n \in {"quad2", "quad2v", "quad4"}}
+  \cup UNION {{Sc(Unshifted(Base[n], pi), "asgiven", QuadOrientedLayouts) : pi \in SafeNumberings(Base[n].nv)} : n \in {"quad2", "quad2v", "quad4"}}
   \cup {Sc(v, "asgiven", TetLayouts) : v \in AllVariants("tet2") \cup AllVariants("tet2b")}
   \cup {Sc(v, "asgiven", HexLayouts) : v \in AllVariants("hex2") \cup AllVariants("hex2v")}
 QuadPScenarios ==
-  {Sc(v, "asgiven", {QuadPLayout}) : v \in AllVariants("quad2") \cup AllVariants("quad2v")}
+  {Sc(v, "asgiven", QuadOrientedLayouts) : v \in AllVariants("quad2") \cup AllVariants("quad2v")}
 Scenarios == IF Which = "main" THEN MainScenarios ELSE QuadPScenarios
 
 \* ---- connectivity as the classes compute it (MeshTopology!BuildEntitiesImpl / BuildInverseImpl) ----
